@@ -75,6 +75,93 @@ def sites(fn_node):
     return out
 
 
+def slice_lines(fn_node, seeds):
+    """Backward slice (by local names, flow-insensitive) of the expressions named by `seeds` inside one function:
+    {"kw": [...keyword names...], "attr_store": [...attribute names assigned...], "ret": bool}.  Returns the set of
+    source lines that can influence a seed (its own lines, the definitions of the names it reads, transitively, and the
+    branch conditions around all of those); None when the function has no seed (then every line counts)."""
+    seed_exprs = []
+    parents = {}
+    for n in ast.walk(fn_node):
+        for ch in ast.iter_child_nodes(n):
+            parents[id(ch)] = n
+    for n in ast.walk(fn_node):
+        if isinstance(n, ast.keyword) and n.arg in seeds.get("kw", ()):
+            seed_exprs.append(n.value)
+        if isinstance(n, (ast.Assign, ast.AugAssign)):
+            tg = n.targets if isinstance(n, ast.Assign) else [n.target]
+            for t in tg:
+                base = t
+                while isinstance(base, ast.Subscript):
+                    base = base.value
+                if isinstance(base, ast.Attribute) and base.attr in seeds.get("attr_store", ()):
+                    seed_exprs.append(n)
+        if isinstance(n, ast.Return) and seeds.get("ret") and n.value is not None:
+            seed_exprs.append(n.value)
+    if not seed_exprs:
+        return None
+    lines = set()
+    names = set()
+    work = list(seed_exprs)
+    seen = set()
+
+    def add_node(x):
+        for y in ast.walk(x):
+            if hasattr(y, "lineno"):
+                lines.add(y.lineno)
+            if isinstance(y, ast.Name) and isinstance(y.ctx, ast.Load):
+                names.add(y.id)
+        # enclosing conditions
+        cur = x
+        while id(cur) in parents:
+            cur = parents[id(cur)]
+            if isinstance(cur, (ast.If, ast.While)):
+                for y in ast.walk(cur.test):
+                    if hasattr(y, "lineno"):
+                        lines.add(y.lineno)
+                    if isinstance(y, ast.Name):
+                        names.add(y.id)
+            if isinstance(cur, ast.For):
+                for y in ast.walk(cur.iter):
+                    if hasattr(y, "lineno"):
+                        lines.add(y.lineno)
+                    if isinstance(y, ast.Name):
+                        names.add(y.id)
+    for x in work:
+        add_node(x)
+    changed = True
+    while changed:
+        changed = False
+        for n in ast.walk(fn_node):
+            if id(n) in seen:
+                continue
+            tgt_names = set()
+            if isinstance(n, ast.Assign):
+                for t in n.targets:
+                    for y in ast.walk(t):
+                        if isinstance(y, ast.Name):
+                            tgt_names.add(y.id)
+            elif isinstance(n, (ast.AugAssign, ast.AnnAssign)) and isinstance(n.target, ast.Name):
+                tgt_names.add(n.target.id)
+            elif isinstance(n, ast.For):
+                for y in ast.walk(n.target):
+                    if isinstance(y, ast.Name):
+                        tgt_names.add(y.id)
+            if tgt_names & names:
+                seen.add(id(n))
+                add_node(n.value if isinstance(n, (ast.Assign, ast.AugAssign, ast.AnnAssign)) and n.value is not None else n.iter)
+                if hasattr(n, "lineno"):
+                    lines.add(n.lineno)
+                changed = True
+    # guards that end the function early (raise / return before the seed) also decide whether the seed is reached
+    for n in ast.walk(fn_node):
+        if isinstance(n, ast.If) and n.body and isinstance(n.body[-1], (ast.Raise, ast.Return)):
+            for y in ast.walk(n.test):
+                if hasattr(y, "lineno"):
+                    lines.add(y.lineno)
+    return lines
+
+
 def apply(kind, n, i):
     """mutate node n in place; returns a description"""
     if kind == "cmp":
@@ -114,7 +201,7 @@ def apply(kind, n, i):
     raise ValueError(kind)
 
 
-def generate(repo_root, quals, repo=None):
+def generate(repo_root, quals, repo=None, seeds=None):
     """yield (qual, description, relpath, new source) for every single-edit mutant of the given functions"""
     from ..model import Repo
     repo = repo or Repo(repo_root)
@@ -135,8 +222,12 @@ def generate(repo_root, quals, repo=None):
                     target = n
             if target is None:
                 continue
-            nsites = len(sites(target))
+            base_sites = sites(target)
+            nsites = len(base_sites)
+            keep = slice_lines(target, seeds) if seeds else None
             for k in range(nsites):
+                if keep is not None and getattr(base_sites[k][1], "lineno", 0) not in keep:
+                    continue
                 tree = copy.deepcopy(base_tree)
                 tgt = None
                 for n in ast.walk(tree):
@@ -161,7 +252,8 @@ def generate(repo_root, quals, repo=None):
                     compile(new, rel, "exec")
                 except Exception:
                     continue
-                yield fi.qual, f"line {line}: {desc}", rel, new
+                srcline = src.splitlines()[line - 1].strip()[:70] if 0 < line <= len(src.splitlines()) else ""
+                yield fi.qual, f"line {line} `{srcline}`: {desc}", rel, new
 
 
 def _job(args):
@@ -171,9 +263,9 @@ def _job(args):
     return qual, desc, v, det
 
 
-def run(pid, repo_root, quals, jobs=None, limit=None):
+def run(pid, repo_root, quals, jobs=None, limit=None, seeds=None):
     tasks = []
-    for qual, desc, rel, new in generate(repo_root, quals):
+    for qual, desc, rel, new in generate(repo_root, quals, seeds=seeds):
         tasks.append((pid, repo_root, qual, desc, rel, new))
         if limit and len(tasks) >= limit:
             break
@@ -202,7 +294,7 @@ def main(argv):
         quals = list(importlib.import_module(f"sa.rules.{pid.lower()}").ANCHORS)
     mod = importlib.import_module(f"sa.rules.{pid.lower()}")
     triage = getattr(mod, "AUTOMUT_TRIAGE", [])
-    summary, res = run(pid, repo_root, quals)
+    summary, res = run(pid, repo_root, quals, seeds=getattr(mod, "AUTOMUT_SEEDS", None))
     explained = 0
     for q, d, v, det in res:
         if v != "violation":
